@@ -8,7 +8,8 @@ MUST_ENTER = [('a5/core/cell_info.py', 'get_num_cells'), ('a5/core/cell_info.py'
 RULE = ('complete enumeration of the finite metadata domain: r in -1..30 for counts/areas, all 496 ordered pairs '
         '-1<=p<=c<=29 for get_num_children (observed list lengths for c<=p+6 on first/last/random parent cells, own closed '
         'form N(c)/N(p) beyond), get_num_cells(r) vs the number of distinct ids obtained by expanding the world cell '
-        '(r<=6 quick, 8 thorough) and vs the sum of children counts over every coarser level (r<=5|6). '
+        '(r<=6 quick, 8 thorough) and vs the sum of children counts over every coarser level (r<=5|6); a ladder of large fan-outs (face -> 9..11, cells -> +10 levels); the rule as used to size outputs: len(uncompact(list, t)) for '
+        'mixed-resolution lists with re-appearing resolutions, the hierarchy re-queried afterwards. '
         'distinct = distinct (kind, r or pair, cell); non-trivial = pairs with p<c and every enumerated level')
 ASSUMPTIONS = ['authalic radius 6371007.2 m defines the sphere area', 'own closed form N(0)=12, N(r)=60*4^(r-1)']
 R_AUTH = 6371007.2
@@ -23,6 +24,10 @@ def plan(tier, seed):
     specs = [{'part': 'meta'}]
     for r in range(0, top + 1):
         specs.append({'part': 'enum', 'r': r, 'sumtop': 5 if tier == 'quick' else 6})
+    ladder = [(0, 9), (2, 12), (12, 22)] if tier == 'quick' else [(-1, 9), (0, 9), (0, 10), (0, 11), (1, 11), (2, 12), (3, 14), (12, 22), (18, 29)]
+    for p, c in ladder:
+        specs.append({'part': 'ladder', 'p': p, 'c': c})
+    specs.append({'part': 'sizing', 'n': 3000 if tier == 'quick' else 60000})
     return specs
 
 
@@ -73,6 +78,47 @@ def run_shard(spec, ctx):
                         if ln != got:
                             ctx.fail('num_children_vs_len', {'p': p, 'c': c, 'cell': x}, got=got, length=ln)
         ctx.sample({'pair': [1, 4], 'get_num_children': get_num_children(1, 4)})
+    elif spec['part'] == 'ladder':
+        p, c = spec['p'], spec['c']
+        x = 0 if p == -1 else gen.random_cell(ctx.rnd, a5, p)
+        ctx.case(('ladder', p, c))
+        ids = a5.cell_to_children(x, c)
+        want = get_num_children(p, c)
+        ctx.count('ladder_ids', len(ids))
+        if len(ids) != want or len(set(ids)) != want or want != (N(c) // N(p) if p >= 0 else N(c)):
+            ctx.fail('num_children_vs_len', {'p': p, 'c': c, 'cell': x}, got=want, length=len(ids), distinct=len(set(ids)))
+        ctx.sample({'pair': [p, c], 'cell': x, 'children': len(ids)})
+    elif spec['part'] == 'sizing':
+        # the child-count rule as it is used to size outputs: len(uncompact(list, t)) == sum of get_num_children == sum of observed
+        # lengths, for mixed-resolution lists in which resolutions re-appear, with the hierarchy queried again afterwards
+        for _ in range(spec['n']):
+            t = ctx.rnd.randint(0, 29)
+            k = ctx.rnd.randint(1, 6)
+            rs = [ctx.rnd.randint(max(-1 if t <= 3 else 0, t - 4), t) for _ in range(k)]
+            if ctx.rnd.random() < 0.5 and k >= 3:
+                rs[-1] = rs[0]  # a resolution that re-appears after a different one
+            cells = [0 if r == -1 else gen.random_cell(ctx.rnd, a5, r) for r in rs]
+            if ctx.rnd.random() < 0.3:
+                cells[0] = ctx.rnd.choice(a5.cell_to_children(0, 0)) if t >= 0 and t <= 4 else cells[0]
+            rs = [a5.get_resolution(x) for x in cells]
+            case = {'cells': cells, 't': t}
+            ctx.case((tuple(cells), t), nontrivial=any(r < t for r in rs))
+            want = sum(get_num_children(r, t) for r in rs)
+            try:
+                out = a5.uncompact(cells, t)
+            except Exception as e:
+                ctx.fail('sizing_raises', case, exc=repr(e))
+                continue
+            lens = [len(a5.cell_to_children(x, t)) for x in cells]
+            ctx.count('sizing_lists')
+            if len(out) != want or sum(lens) != want:
+                ctx.fail('sizing_mismatch', case, uncompact_len=len(out), rule=want, observed=sum(lens))
+            out.reverse()  # hostile caller
+            del out[:1]
+            lens2 = [len(a5.cell_to_children(x, t)) for x in cells]
+            if lens2 != lens:
+                ctx.fail('length_depends_on_history', case, before=lens, after=lens2)
+        ctx.sample(case)
     else:
         r = spec['r']
         ids = a5.cell_to_children(0, r)
@@ -97,7 +143,19 @@ def finalize(m, tier):
 
 
 def replay(f, ctx):
-    run_shard({'part': 'meta'}, ctx)
     c = f.get('case', {})
+    if 'cells' in c:
+        import a5
+        from a5.core.cell_info import get_num_children
+        rs = [a5.get_resolution(x) for x in c['cells']]
+        want = sum(get_num_children(r, c['t']) for r in rs)
+        try:
+            out = a5.uncompact(list(c['cells']), c['t'])
+            if len(out) != want:
+                ctx.fail('sizing_mismatch', c, uncompact_len=len(out), rule=want)
+        except Exception as e:
+            ctx.fail('sizing_raises', c, exc=repr(e))
+        return
+    run_shard({'part': 'meta'}, ctx)
     if 'r' in c and 'p' not in c:
         run_shard({'part': 'enum', 'r': min(c['r'], 8), 'sumtop': 6}, ctx)
